@@ -18,6 +18,9 @@
   `matmul_all_orders`.
 -/
 import FtProofs.Lemmas.KernelRun
+import FtProofs.Lemmas.KernelTile
+import FtProofs.Lemmas.KernelSplit
+import FtProofs.Lemmas.KernelSwizzle
 set_option linter.unusedSectionVars false
 set_option linter.unusedSimpArgs false
 set_option linter.unusedVariables false
@@ -136,6 +139,72 @@ theorem loop_order_irrelevant (s₁ s₂ : Style) (U : List κ) (hU : Asc U)
   by_cases h : zr₁.map σ = zr₁.map τ
   · rw [if_pos h, if_pos (hiff.1 h)]
   · rw [if_neg h, if_neg (fun h' => h (hiff.2 h'))]
+
+/-- **`swizzleRanks` re-orders without changing the tensor** (model of `Tensor.swizzleRanks`:
+    flatten the top `s` ranks into coordinate tuples, permute each tuple by `guide`, sort, regroup;
+    the `r` ranks below move with their parent).  For a well-formed operand with ranks `top ++ low`
+    and any permutation `guide` of the `s` top positions, the swizzled tree read with ranks
+    `permute guide top ++ low` is well-formed, stays inside the universe and is the `SameTensor`. -/
+theorem swizzle_same_tensor (U : List κ) (r s : Nat) (guide : List Nat) (hg : guide.Perm (List.range s))
+    (top low : List Nat) (htop : top.length = s) (hlow : low.length = r)
+    (t : Tree κ Int (r + s)) (hw : WF (r + s) t) (hin : coordsInB U (r + s) t = true) :
+    WF (r + s) (swizzle (0 : Int) r s guide t) ∧
+    coordsInB U (r + s) (swizzle (0 : Int) r s guide t) = true ∧
+    SameTensor
+      (Cur.ofTree (top ++ low) (r + s) (by simp [htop, hlow]; omega) t)
+      (Cur.ofTree (permute guide top ++ low) (r + s) (by
+        have hr : ∀ g ∈ guide, g < top.length := fun g hgm => htop ▸ List.mem_range.1 (hg.mem_iff.1 hgm)
+        rw [List.length_append, permute_length guide top hr, hg.length_eq, List.length_range, hlow]; omega)
+        (swizzle (0 : Int) r s guide t)) :=
+  ⟨(swizzle_spec (0 : Int) r s guide hg t hw).1, swizzle_in U r s guide hg t hw hin,
+   swizzle_sameTensor r s guide hg top low htop hlow t hw⟩
+
+/-! ### every uniform tiling, applied consistently to the operands -/
+
+section tiling
+
+/-- **tiling is irrelevant.**  Index variable `v` is tiled with `step`: a new loop variable `v1`
+    (the upper half) is added anywhere in the loop order (`order'` is any permutation of
+    `v1 :: order`), every operand that has rank `v` is replaced by its tiled version (`Tiled`: value
+    `A[.., x, ..]` at `(.., x1, x, ..)` iff `x1 = x / step * step`, else 0 — what `splitUniform`
+    produces, `splitUniform_tiles`), the other operands are unchanged, and the output gains rank `v1`
+    iff it has rank `v`.  Then, starting from empty outputs, the tiled loop nest and the original loop
+    nest agree at every point (the tiled output is 0 where the upper coordinate is not the tile of
+    the lower one) — for any two styles and any placement of the two halves in the loop order. -/
+theorem tiling_irrelevant (s s' : Style) (step : Int) (U : List Int) (hU : Asc U)
+    (htile : ∀ x ∈ U, tileOf step x ∈ U) (v v1 : Nat)
+    (order order' : List Nat) (ops ops' : List (Cur Int)) (zr zr' : List Nat)
+    (hnd : order.Nodup) (hv : v ∈ order) (hv1 : v1 ∉ order) (hperm : order'.Perm (v1 :: order))
+    (hok : OpsOK U order ops) (hok' : OpsOK U order' ops')
+    (hzr : zr.Sublist order) (hzr' : zr'.Sublist order')
+    (hzmem : ∀ w, w ∈ zr' ↔ (w ∈ zr ∨ (w = v1 ∧ v ∈ zr)))
+    (h1 : TiledOps step v v1 ops ops') (h2 : AnyTiled step v v1 ops ops') (τ : Nat → Int) :
+    val (0 : Int) zr'.length (run s' order' ops' zr' (defaultTree (0 : Int) zr'.length)) (zr'.map τ) =
+      if (v ∈ zr → τ v1 = tileOf step (τ v)) then
+        val (0 : Int) zr.length (run s order ops zr (defaultTree (0 : Int) zr.length)) (zr.map τ)
+      else 0 := by
+  have hnd' : order'.Nodup := hperm.nodup_iff.2 (List.nodup_cons.2 ⟨hv1, hnd⟩)
+  rw [(kernel_denote s' U hU order' ops' zr' _ hnd' hok' hzr' (wf_defaultTree (0 : Int) zr'.length)).2 τ _ (by simp),
+    (kernel_denote s U hU order ops zr _ hnd hok hzr (wf_defaultTree (0 : Int) zr.length)).2 τ _ (by simp),
+    val_defaultTree, val_defaultTree, Int.zero_add, Int.zero_add]
+  exact einsum_tiled step U hU htile v v1 order order' ops ops' zr zr' hv hv1 hperm
+    (fun w hw => hzr.subset hw) hzmem (fun c hc h => hv1 ((hok.conc c hc).subset h)) h1 h2 τ τ
+
+/-- **`splitUniform` produces the tiled operand** (model of `Tensor.splitUniform(step, rankid=v)`
+    with halo 0 and absolute coordinates, FtModel.Split / C08): for a well-formed operand with ranks
+    `pre ++ v :: post` whose coordinates lie inside the active range `[as, ae)` of the split rank, the
+    split tree, read with ranks `pre ++ v1 :: v :: post`, is `Tiled`. -/
+theorem splitUniform_tiles (step as ae : Int) (hs : 0 < step) (hact : as < ae) (U : List Int)
+    (hUr : ∀ x ∈ U, as ≤ x ∧ x < ae) (pre post : List Nat) (v v1 : Nat)
+    (t : Tree Int Int (post.length + 1 + pre.length)) (r : Tree Int Int (post.length + 2 + pre.length))
+    (hw : WF _ t) (hin : coordsInB U _ t = true)
+    (hr : splitAt { op := .uniform step, act := some (as, ae) } (0 : Int) post.length pre.length t = some r) :
+    Tiled step v v1
+      (Cur.ofTree (pre ++ v :: post) (post.length + 1 + pre.length) (by simp; omega) t)
+      (Cur.ofTree (pre ++ v1 :: v :: post) (post.length + 2 + pre.length) (by simp; omega) r) :=
+  splitUniform_tiled step as ae hs hact U hUr pre post v v1 t r hw hin hr
+
+end tiling
 
 /-! ### Stage A: the named kernels, read off the generic theorem
 
@@ -362,8 +431,30 @@ example : ([0, 2] : List Nat).Sublist [0, 1, 2] := by decide
   == [([0, 0], 1), ([0, 2], 10), ([2, 2], -5)]
 #guard einsum exU [0, 1, 2] exOps (fun σ => [0, 2].map σ) [0, 2] (fun _ => 0) == 10
 #guard dsum exU [0, 1, 2] [0, 2] [0, 0] (prodVal exOps) (fun _ => 0) == 1
+-- swizzling B (ranks k,j) with guide [1,0] gives Bt (ranks j,k): the same tensor
+example : SameTensor (Cur.ofTree [1, 2] (0 + 2) rfl exB) (Cur.ofTree [2, 1] (0 + 2) rfl exBt) := by
+  have h := (swizzle_same_tensor exU 0 2 [1, 0] (by decide) [1, 2] [] rfl rfl exB
+    ((wfB_iff 2 exB).1 (by decide)) (by decide)).2.2
+  have e : swizzle (0 : Int) 0 2 [1, 0] exB = exBt := by decide
+  rw [e] at h
+  exact h
 -- the swizzle model turns B (k,j) into Bt (j,k)
 #guard decide (swizzle (0 : Int) 0 2 [1, 0] (show Tree Int Int (0 + 2) from exB) = exBt)
+-- tiling: a = [1, ·, 3, -1] split with step 2 over the shape [0, 4)
+private def exa : Tree Int Int (0 + 1 + 0) := (show List (Int × Int) from [(0, 1), (2, 3), (3, -1)])
+private def exaT : Tree Int Int (0 + 2 + 0) :=
+  (show List (Int × Tree Int Int 1) from
+    [(0, (show List (Int × Int) from [(0, 1)])), (2, (show List (Int × Int) from [(2, 3), (3, -1)]))])
+private def exb : Tree Int Int 1 := (show List (Int × Int) from [(2, 5), (3, 1)])
+example : ∀ x ∈ ([0, 1, 2, 3] : List Int), tileOf 2 x ∈ ([0, 1, 2, 3] : List Int) := by decide
+example : splitAt { op := .uniform 2, act := some (0, 4) } (0 : Int) 0 0 exa = some exaT := by decide
+example : Tiled 2 0 1 (Cur.ofTree [0] 1 rfl exa) (Cur.ofTree [1, 0] 2 rfl exaT) :=
+  splitUniform_tiles 2 0 4 (by decide) (by decide) [0, 1, 2, 3] (by decide) [] [] 0 1 exa exaT
+    ((wfB_iff 1 exa).1 (by decide)) (by decide) (by decide)
+-- dot product 3·5 + (-1)·1 = 14, untiled and tiled (both placements of the halves)
+#guard run .tf [0] [⟨[0], exa⟩, ⟨[0], exb⟩] [] (0 : Int) == (14 : Int)
+#guard run .tf [1, 0] [⟨[1, 0], exaT⟩, ⟨[0], exb⟩] [] (0 : Int) == (14 : Int)
+#guard run .lf [0, 1] [⟨[0, 1], swizzle (0 : Int) 0 2 [1, 0] exaT⟩, ⟨[0], exb⟩] [] (0 : Int) == (14 : Int)
 -- the leader-follower rows contain the zero products, the filter removes exactly those
 #guard (coiter .lf [(⟨[1], (show List (Int × Int) from [(0, 1), (1, 2)])⟩ : Cur Int), ⟨[1], (show List (Int × Int) from [(1, 5)])⟩]).length == 2
 #guard (coiter .lff [(⟨[1], (show List (Int × Int) from [(0, 1), (1, 2)])⟩ : Cur Int), ⟨[1], (show List (Int × Int) from [(1, 5)])⟩]).length == 1
